@@ -491,7 +491,8 @@ def fmt_itp(spec, d):
             a, b = (nr[j], nr[i]) if (d["flip"] and k % 2 == 0) else (nr[i], nr[j])
             f = [str(a), str(b)]
             if d["bondcols"] >= 1:
-                f.append("1" if sec != "c" else "2")
+                # function types vary (bonds 1, 2, 6 = harmonic potential without exclusions, 7; constraints 1, 2): every listed pair is a bond
+                f.append(["1", "6", "2", "7"][k % 4] if sec == "b" else (["2", "1"][k % 2] if sec == "c" else "1"))
             if d["bondcols"] == 2:
                 f += ["0.1530", "2.2e+05"] if sec == "b" else (["0.47"] if sec == "c" else [])
             wrap = d["prepro"] == 2 and k == 0
